@@ -1,9 +1,14 @@
 #!/bin/bash
-# Runs every seeded change against the check of the property it breaks; writes seeded/RESULTS.txt
+# Runs every seeded change against the check of the property it breaks; writes seeded/RESULTS-latest.txt
+# (seeded/RESULTS.txt keeps the first-run history).  Evidence written while a seed is applied is
+# discarded afterwards: committed evidence only ever comes from the unchanged tree.
 cd /verif
-: > seeded/RESULTS.txt
+out=seeded/RESULTS-latest.txt
+: > $out
 for d in seeded/C*-*; do
   s=$(basename $d); p=${s%%-*}
-  vf/seedrun.sh $s $p >> seeded/RESULTS.txt 2>&1
+  vf/seedrun.sh $s $p >> $out 2>&1
+  grep -h "regressed\|UNPROVED" /tmp/seedrun_${s}_${p}.log | cut -c1-220 | sed 's/^/    /' >> $out
 done
-git -C /repo status --short >> seeded/RESULTS.txt
+git -C /repo status --short >> $out
+git -C /verif checkout -- evidence baseline 2>/dev/null
